@@ -410,12 +410,16 @@ var _ rpc.Resources
 
 // --- HTTP entry (C14, C17) ---
 
-// PathToRID / PathToRIDAction never panic on any path, query and prefix.
+// PathToRID / PathToRIDAction never panic on any path, query and prefix. The conversions
+// themselves are named by uninterpreted functions (definitions): what callers are held to is
+// which path, query and prefix they convert.
 //@ func PathToRID
+//@   defines result == ufStr_pathrid(path, query, prefix)
 //@   assigns elemsof([]string)
 //@   safety[C15]
 //@   loop 1 invariant 0 - 1 <= i && i < len(parts) && len(parts) >= 1
 //@ func PathToRIDAction
+//@   defines result0 == ufStr_pathridcall(path, query, prefix) && result1 == ufStr_pathaction(path, query, prefix)
 //@   assigns elemsof([]string)
 //@   safety[C15]
 //@   loop 1 invariant 0 - 1 <= i && i < len(parts) && len(parts) >= 2
@@ -440,8 +444,19 @@ var _ rpc.Resources
 // apiHandler: a refused origin is answered with 403 before any service request is made for it
 // (a pre-flight OPTIONS request is answered without service requests, too); GET/HEAD take the
 // same path; only valid resource ids reach a connection.
+// The resource id of a request is converted from the path as the client escaped it (the raw
+// path when the URL has one), the URL's raw query and the configured API prefix - for every
+// method alike, so that an escaped slash never becomes a token separator.
+//@ define predReqPath(r *http.Request) string = ite(r.URL.RawPath != "", r.URL.RawPath, r.URL.Path)
 //@ func (*Service).apiHandler
 //@   requires s != nil && w != nil && r != nil && r.URL != nil && s.enc != nil
+//@   assert[C14] PathToRID#*: arg0 == predReqPath(r) && arg1 == r.URL.RawQuery && arg2 == s.cfg.APIPath
+//@   assert[C14] PathToRIDAction#1: arg0 == predReqPath(r) && arg1 == r.URL.RawQuery && arg2 == s.cfg.APIPath
+//@   assert[C14] s.temporaryConn#1: rid == ufStr_pathrid(predReqPath(r), r.URL.RawQuery, s.cfg.APIPath)
+//@   assert[C14] s.handleCall#1: r.Method == "POST" ==> arg2 == ufStr_pathridcall(predReqPath(r), r.URL.RawQuery, s.cfg.APIPath) && arg3 == ufStr_pathaction(predReqPath(r), r.URL.RawQuery, s.cfg.APIPath)
+//@   assert[C14] s.handleCall#1: r.Method != "POST" ==> arg2 == ufStr_pathrid(predReqPath(r), r.URL.RawQuery, s.cfg.APIPath) &&
+//@       (r.Method == "PUT" ==> s.cfg.PUTMethod != nil && arg3 == *s.cfg.PUTMethod) && (r.Method == "DELETE" ==> s.cfg.DELETEMethod != nil && arg3 == *s.cfg.DELETEMethod) &&
+//@       (r.Method == "PATCH" ==> s.cfg.PATCHMethod != nil && arg3 == *s.cfg.PATCHMethod)
 //@   assumes len(s.cfg.allowOrigin) > 0 && s.conns != nil
 //@   assert[C17] httpError#1: arg1 == reserr.ErrForbiddenOrigin && r.Method != "OPTIONS" && callcount("temporaryConn") == old(callcount("temporaryConn")) && callcount("handleCall") == old(callcount("handleCall"))
 //@   assert[C14,C17] s.temporaryConn#1: codec.predValidRID(rid, true) && (r.Method == "GET" || r.Method == "HEAD") && callcount("httpError") == old(callcount("httpError"))
